@@ -208,7 +208,11 @@ def parseOracle (c : Codec) (entry : String) (bytes : Bytes) (impl : String) : L
     | some evs =>
       let wf := if verdict == "ok" && !WF evs then
           [s!"C09 {c.name}-parser-ill-formed-events at={(wfFirstBad evs).getD 0}"] else []
-      wf ++ match c.ref bytes with
+      -- work proportional to the input: a parser may not deliver events out of all proportion
+      -- to the bytes it received
+      let work := if evs.length > 64 * bytes.length + 64 then
+          [s!"C03 {c.name}-work-disproportionate-to-input events={evs.length} bytes={bytes.length}"] else []
+      wf ++ work ++ match c.ref bytes with
       | .ok vs mr =>
         if verdict != "ok" then
           (if mr then [] else [s!"{c.name}-refused-valid-document entry={entry}"].map (specProp c ++ " " ++ ·))
